@@ -215,6 +215,13 @@ func RunC08(r *core.Run) {
 			}
 		}
 	}
+	// method tokens that merely START with the version string are ordinary (unknown) methods
+	for _, v := range []string{"SIP/2.0", "sip/2.0", "Sip/2.0"} {
+		for _, suf := range []string{"x", "0", "-EXT", "/UDP", "SIP/2.0", ".", "\x80"} {
+			meths = append(meths, []byte(v+suf))
+		}
+	}
+	meths = append(meths, []byte("SIP/2."), []byte("SIP/2.1"), []byte("SIP/3.0"), []byte("XSIP/2.0"), []byte("SIP/2"))
 	uris := []string{"sip:a@b", "x", "sip:bob@biloxi.com;transport=tcp?h=v", "*", "SIP/2.0", "200", "<sip:a>", "\x80", "a:b:c"}
 	rvers := []string{"SIP/2.0", "sip/2.0", "SIP/3.0", "x", "HTTP/1.1", "2"}
 	st = r.Stage("request-lines/method-families", int64(len(meths))*3, func(w *core.Worker, idx int64) {
